@@ -37,6 +37,10 @@ pub struct TlCall {
     /// (a pre-warmed or pooled ready service that sits idle until the request comes)
     #[serde(default)]
     pub ready_before: u64,
+    /// the caller gives up (drops the response future) this long after the call, if it has not
+    /// resolved by then
+    #[serde(default)]
+    pub abandon_after: Option<u64>,
 }
 
 #[derive(Clone, Debug, Serialize, Deserialize)]
@@ -85,14 +89,16 @@ fn case_strategy(_tier: Tier) -> BoxedStrategy<TlCase> {
         prop::bool::weighted(0.6),
         prop::bool::weighted(0.25),
         prop_oneof![3 => Just(0u64), 1 => 1u64..=40, 1 => (1u64..=30).prop_map(|k| k * 10)],
+        prop_oneof![5 => Just(None), 1 => (0u64..=60).prop_map(Some), 1 => (1u64..=10).prop_map(|k| Some(k * 10 - 1))],
     )
-        .prop_map(|(at, timeout, lat, ok, busy, ready_before)| TlCall {
+        .prop_map(|(at, timeout, lat, ok, busy, ready_before, abandon_after)| TlCall {
             at,
             timeout,
             lat,
             ok,
             busy,
             ready_before,
+            abandon_after,
         });
     (
         timeout_strategy(),
@@ -276,6 +282,7 @@ async fn interp(case: &TlCase) -> Verdict {
     let last_arrival = case.calls.iter().map(|c| c.at).max().unwrap_or(0);
 
     let mut task = vec![None; n];
+    let mut abandoned = vec![false; n];
     let horizon = (0..n)
         .map(|i| {
             let tout = if case.huge_timeout { case.timeout } else { touts[i] };
@@ -310,6 +317,14 @@ async fn interp(case: &TlCase) -> Verdict {
                 task[i] = Some(sim.spawn_call(fut, map_outcome));
             }
         }
+        for i in 0..n {
+            if let (Some(d), Some(tk)) = (case.calls[i].abandon_after, task[i]) {
+                if case.calls[i].at + d == t && sim.state(tk) == crate::sim::TaskState::Live {
+                    sim.cancel(tk);
+                    abandoned[i] = true;
+                }
+            }
+        }
         if case.drop_service && t == last_arrival {
             // nothing but the call futures (and what the layer spawned) refers to the service now
             call = None;
@@ -321,6 +336,7 @@ async fn interp(case: &TlCase) -> Verdict {
     let mut near = false;
     let mut noncancel_timeout = false;
     let mut tie = false;
+    let mut any_abandoned = false;
     for i in 0..n {
         let c = &case.calls[i];
         let tk = task[i].unwrap();
@@ -342,6 +358,27 @@ async fn interp(case: &TlCase) -> Verdict {
             if (l as i64 - tmo as i64).abs() <= 1 {
                 near = true;
             }
+        }
+        if abandoned[i] {
+            any_abandoned = true;
+            // the caller gave up before the call resolved. In cancel mode nothing keeps the inner
+            // call alive past the deadline: it is gone (dropped, or finished) by then
+            if let (true, false, Some((_, serial))) = (case.cancel, case.huge_timeout, enter) {
+                let deadline = c.at + tmo;
+                let ended = snap.iter().find_map(|e| match e {
+                    Ev::Dropped { t, serial: s } if *s == serial => Some(*t),
+                    Ev::Done { t, serial: s, .. } if *s == serial => Some(*t),
+                    _ => None,
+                });
+                if !matches!(ended, Some(t) if t <= deadline) {
+                    violations.push(format!(
+                        "call {i} (arrival {}, timeout {tmo} ms, abandoned by its caller at t={}): cancellation enabled but the inner call was still alive after the deadline t={deadline} (ended: {ended:?})",
+                        c.at,
+                        c.at + c.abandon_after.unwrap_or(0)
+                    ));
+                }
+            }
+            continue;
         }
         if resolve.is_none() && case.huge_timeout && lat.is_none() {
             // no limit and an inner call that never finishes: staying pending is correct
@@ -463,6 +500,9 @@ async fn interp(case: &TlCase) -> Verdict {
     let mut classes = vec![];
     if near {
         classes.push("latency_within_1ms_of_deadline");
+    }
+    if any_abandoned {
+        classes.push("caller_gave_up_before_resolution");
     }
     if tie {
         classes.push("latency_equals_deadline");
